@@ -47,21 +47,21 @@ def parseOp? : String → Option Poly.BinOp
   | _ => none
 
 /-- one step of a mutating sequence -/
-def mutStep (a : Poly) (toks : List String) : Option (Except Err Poly) :=
+def parseMut? (toks : List String) : Option Poly.MutOp :=
   match toks with
   | ["setint", i, v] => do
       let i ← parseInt? i; let v ← parseRVal? v
       match v with
-      | .int x => pure (a.setInt i x)
+      | .int x => pure (.setInt i x)
       | .list _ => none
   | ["setslice", s, e, st, v] => do
       let s ← parseOptInt? s; let e ← parseOptInt? e; let st ← parseOptInt? st; let v ← parseRVal? v
-      pure (a.setSlice s e st v)
-  | ["setlist", l, v] => do let l ← parseIntList? l; let v ← parseRVal? v; pure (a.setIdx l v)
-  | ["setdim", d] => do
-      let d ← parseInt? d
-      pure (if d ≤ 0 then .error "AssertionError" else a.setDim d.toNat)
+      pure (.setSlice s e st v)
+  | ["setlist", l, v] => do let l ← parseIntList? l; let v ← parseRVal? v; pure (.setIdx l v)
+  | ["setdim", d] => do let d ← parseInt? d; pure (.setDim (if d ≤ 0 then 0 else d.toNat))
   | _ => none
+
+def mutStep (a : Poly) (toks : List String) : Option (Except Err Poly) := (parseMut? toks).map a.applyOp
 
 def runSeq (a : Poly) : List (List String) → List String → Option (List String)
   | [], acc => some acc.reverse
